@@ -142,7 +142,11 @@ fn outcome_json(o: &report::Outcome) -> Value {
 }
 
 fn build_settings(variant: usize) -> c2pa::Result<Value> {
-    let s = match variant % 5 {
+    let s = match variant % 7 {
+        // every kind of value Context::with_settings accepts (IntoSettings): a serde_json::Value and an
+        // owned String here, &str / Settings in the other operations
+        5 => Context::new().with_settings(json!({"core": {"merkle_tree_max_proofs": 17}, "verify": {"verify_after_sign": false}}))?.settings().clone(),
+        6 => Context::new().with_settings(String::from("[core]\nmerkle_tree_max_proofs = 19\n[verify]\nremote_manifest_fetch = false\n"))?.settings().clone(),
         4 => {
             // settings overlaid from a file (json or toml) on top of a value set with with_value
             let dir = tempfile::tempdir().map_err(c2pa::Error::IoError)?;
@@ -327,7 +331,7 @@ fn gen_history(rng: &mut Rng, id: u64, inp: &Inputs) -> History {
                 5..=9 => OpK::Read(rng.usize(inp.signed.len())),
                 10..=13 => OpK::AddIngredient(rng.usize(inp.signed.len())),
                 14..=15 => OpK::SignerFirstUse,
-                16..=17 => OpK::BuildSettings(rng.usize(10)),
+                16..=17 => OpK::BuildSettings(rng.usize(14)),
                 18..=19 => OpK::Reconfigure(rng.usize(N_PROFILES), rng.usize(N_PROFILES), rng.usize(inp.signed.len())),
                 _ => OpK::Cancel(rng.usize(n_ctx)),
             };
